@@ -63,6 +63,22 @@ def refStepR (dflt : ν) (d : Nat) (t : Tree κ ν d) (R : RankLists κ) (p : Li
 def clearStepR (d : Nat) (t : Tree κ ν (d + 1)) (R : RankLists κ) (q : List κ) : Tree κ ν (d + 1) × RankLists κ :=
   ((atPath (fun _ _ => (([] : List _), Outcome.ok)) d t q).1, unregBelow R q)
 
+/-- the rank lists after the sub-fiber at `q` has been replaced by `sub` the way fiber assignment does
+    it: everything registered strictly below `q` is unregistered, then the fibers of the new sub-tree are
+    registered in creation (depth-first) order -/
+def replaceBelowR [DecidableEq κ] (R : RankLists κ) (q : List κ) (d' : Nat) (sub : Tree κ ν (d' + 1)) : RankLists κ :=
+  (unregBelow R q).mapIdx (fun i l =>
+    if q.length < i then l ++ (pathsAt (d' + 1) sub (i - q.length)).map (q ++ ·) else l)
+
+/-- the fiber reached by `path`, as a dependent pair (remaining payload depth, fiber) -/
+def locate : (d : Nat) → Tree κ ν (d + 1) → List κ → Option (Σ d' : Nat, Tree κ ν (d' + 1))
+  | d, f, [] => some ⟨d, f⟩
+  | 0, _, _ :: _ => none
+  | d + 1, f, c :: cs =>
+    match lookup (show List (κ × Tree κ ν (d + 1)) from f) c with
+    | none => none
+    | some s => locate d s cs
+
 inductive RankOp (κ : Type)
   | ref (p : List κ)
   | clear (q : List κ)
@@ -78,6 +94,21 @@ def rankRun (dflt : ν) (d : Nat) (s : Tree κ ν (d + 1) × RankLists κ) : Lis
 /-- executable Mirror: rank `i` is a permutation of the fibers found at depth `i` -/
 def mirrorB (d : Nat) (t : Tree κ ν d) (R : RankLists κ) : Bool :=
   R.length == d && (List.range d).all (fun i => (R.getD i []).isPerm (pathsAt d t i))
+
+end
+end Ft
+
+namespace Ft
+section
+variable {ν : Type} [DecidableEq ν]
+
+/-- fiber assignment `f <<= g` at the fiber reached by `q`, on the pair (tree, rank lists): the
+    tree transformer of `Mutate.lean` plus unregister-below / register-the-new-sub-tree -/
+def assignStepR (dflt : ν) (d : Nat) (t : Tree Int ν (d + 1)) (R : RankLists Int) (q : List Int) (g : TreeArg ν) :
+    Tree Int ν (d + 1) × RankLists Int :=
+  match locate d t q with
+  | some ⟨d', s⟩ => ((mstep dflt d t (.assignF q g)).1, replaceBelowR R q d' (fiberStep dflt (.assignF q g) d' s).1)
+  | none => (t, R)
 
 end
 end Ft
